@@ -33,7 +33,7 @@ TCloseOut   == Is("CloseOut") /\ (OpenFailClose \/ CommitCloseOut \/ CleanupClos
 TRename     == Is("Rename") /\ Rename /\ Res
 TRemove     == Is("Remove") /\ (OpenFailRemove \/ FailRemove) /\ Res
 (* a failing call that is not one of the protocol's own: it fails the body or the closing of the inputs *)
-TOther      == Is("Other") /\ (BodyErr \/ BodyIgnoresErr \/ CommitCloseIn \/ FailCloseIn \/ CleanupCloseIn) /\ faults' = faults + 1
+TOther      == Is("Other") /\ (BodyErr \/ BodyIgnoresErr \/ CommitCloseIn \/ FailCloseIn \/ CleanupCloseIn \/ CallerCloseFails) /\ faults' = faults + 1
 
 (* the end of a trace: outcome and final state of the real run agree with the model; then the next trace starts *)
 FinalOK == /\ Ev.outcome = "ok"    => Succeeded
